@@ -363,7 +363,7 @@ def main():
     thorough = tier() == "thorough"
     n_total = 12000 if thorough else 1200
     cases = [{"seed": seed(), "idx": i} for i in range(n_total)]
-    res = pmap("vf.checks.c09:run_case", cases, cpu_budget=300)
+    res = pmap("vf.checks.c09:run_case", cases, cpu_budget=30)
     for c, r_ in zip(cases, res):
         if r_["status"] != "ok":
             if r_["status"] in ("crash", "hang"):
